@@ -6,6 +6,9 @@ the tier (quick/thorough); nothing here depends on wall-clock time."""
 VARIANTS = {
     "asm": ["-tags", "verif"],
     "purego": ["-tags", "verif,purego"],
+    # build tag "plugin": the library's alternative amd64 assembly for Go plugin builds (internal/sm2ec/p256_plugin_amd64.s,
+    # internal/sm9/bn256/gfp_plugin_amd64.s + the generic gfp2/g1 helpers); no GODEBUG setting selects it
+    "plugin": ["-tags", "verif,plugin"],
     "race": ["-tags", "verif", "-race"],
     "race-purego": ["-tags", "verif,purego", "-race"],
 }
@@ -41,6 +44,11 @@ def both(wl, configs, shards=(4, 16), **kw):
     return out
 
 
+def plugin(wl, configs=("avx2", "noadx"), shards=(1, 4), **kw):
+    """the plugin-tag build over the given dispatch configurations."""
+    return [J(wl, list(configs), "plugin", shards, **kw)]
+
+
 PLAN = {}
 CLAIMS = {}
 
@@ -55,7 +63,7 @@ def _load():
         pid = os.path.basename(f)[:-3].upper()
         spec = importlib.util.spec_from_file_location("plans_" + pid, f)
         m = importlib.util.module_from_spec(spec)
-        m.J, m.both = J, both
+        m.J, m.both, m.plugin = J, both, plugin
         spec.loader.exec_module(m)
         PLAN[pid] = m.PLAN
         CLAIMS[pid] = m.CLAIM
